@@ -221,7 +221,49 @@ func ZZC08Pairs() {
 	v.Assert(got == want, "C08/paired-bounds-ordering")
 }
 
+// ZZC08Triples: curated three-rule combinations (a type reference / or / enum / any with its
+// allowed companions optional+nullable, bounds with both exclusive flags, ...) in all six orders
+// against the expected verdict.
+func ZZC08Triples() {
+	type tri struct {
+		node   int // index into c08Nodes
+		asProp bool
+		rules  [3]c08Rule
+		ok     bool
+	}
+	cases := []tri{
+		{0, true, [3]c08Rule{{"type", `"@ti"`}, {"optional", "true"}, {"nullable", "true"}}, true},
+		{0, true, [3]c08Rule{{"type", `"@ti"`}, {"optional", "false"}, {"nullable", "true"}}, true},
+		{0, true, [3]c08Rule{{"type", `"@ti"`}, {"optional", "true"}, {"min", "1"}}, false},
+		{0, true, [3]c08Rule{{"or", `[{type: "integer"}, {type: "string"}]`}, {"optional", "true"}, {"nullable", "true"}}, true},
+		{0, true, [3]c08Rule{{"or", `[{type: "integer"}, {type: "string"}]`}, {"optional", "true"}, {"min", "1"}}, false},
+		{0, true, [3]c08Rule{{"enum", `[5, 6]`}, {"optional", "true"}, {"nullable", "true"}}, true},
+		{0, true, [3]c08Rule{{"enum", `[5, 6]`}, {"optional", "true"}, {"min", "1"}}, false},
+		{0, true, [3]c08Rule{{"type", `"any"`}, {"optional", "true"}, {"nullable", "true"}}, true},
+		{0, false, [3]c08Rule{{"min", "1"}, {"max", "9"}, {"exclusiveMinimum", "true"}}, true},
+		{0, false, [3]c08Rule{{"min", "5"}, {"max", "5"}, {"exclusiveMaximum", "true"}}, false},
+		{0, false, [3]c08Rule{{"min", "5"}, {"max", "5"}, {"exclusiveMaximum", "false"}}, true},
+		{1, false, [3]c08Rule{{"type", `"decimal"`}, {"precision", "2"}, {"min", "1"}}, true},
+		{2, false, [3]c08Rule{{"type", `"email"`}, {"minLength", "1"}, {"nullable", "true"}}, false},
+		{2, true, [3]c08Rule{{"minLength", "1"}, {"maxLength", "5"}, {"optional", "true"}}, true},
+		{2, false, [3]c08Rule{{"minLength", "1"}, {"maxLength", "5"}, {"optional", "true"}}, false},
+		{6, true, [3]c08Rule{{"minItems", "1"}, {"maxItems", "3"}, {"optional", "true"}}, true},
+		{5, true, [3]c08Rule{{"additionalProperties", "true"}, {"nullable", "true"}, {"optional", "true"}}, true},
+	}
+	c := cases[v.Choose(0, len(cases)-1)]
+	p := perms3[v.Choose(0, 5)]
+	rules := []c08Rule{c.rules[p[0]], c.rules[p[1]], c.rules[p[2]]}
+	text := c08Schema(c.node, c.asProp, rules, -1)
+	v.Observe("schema", text)
+	s := jschema.New("s", text)
+	// AddType loads the schema first, so a rule-set rejected by the loader shows up here already
+	got := s.AddType("@ti", jschema.New("@ti", "7")) == nil && s.Check() == nil
+	v.Assert(got == c.ok, "C08/three-rule-combination")
+	v.Reach("C08/triples")
+}
+
 func init() {
+	ZZHarnesses["ZZC08Triples"] = ZZC08Triples
 	ZZHarnesses["ZZC08Order"] = ZZC08Order
 	ZZHarnesses["ZZC08Single"] = ZZC08Single
 	ZZHarnesses["ZZC08Pairs"] = ZZC08Pairs
